@@ -223,4 +223,21 @@ def sampleRaw : Tmpl :=
           (.seq (.text ['a', 'b']) (.expr .boom [])))
     (.seq (.text ['x']) (.seq (.expr (.call 1 [.lit ['q']]) []) (.text ['y'])))
 
+/-- `<%def name="d1()"><%def name="d2()" buffered="True" cached="True">x</%def>${'p' + d2()}</%def>${d1()}`:
+    mako ignores `buffered` on an inline cached def (`write_inline_def` passes `buffered=False` to
+    `write_cache_decorator`), so `d2()` writes `x` before the expression's own value `p` is written -/
+def quirkTmpl : Tmpl :=
+  .seq (.def_ 1 [] noFlags
+          (.seq (.def_ 2 [] { buffered := true, filters := [], cached := true, deco := false } (.text ['x']))
+                (.expr (.cat (.lit ['p']) (.call 2 [])) [])))
+       (.expr (.call 1 []) [])
+
+/-- control-fragment sample: `a` `% for v1 in ['i', 'j']:` `% try:` `${loop.index}${boom() | flt2}` `% except:`
+    `!${probe(context)}` `% endtry` `% endfor` `<%text filter="flt3">z</%text>` -/
+def sampleCtl : Tmpl :=
+  .seq (.text ['a'])
+    (.seq (.for_ 1 [.lit ['i'], .lit ['j']]
+            (.try_ (.seq (.expr .loopIndex []) (.expr .boom [2])) (.seq (.text ['!']) (.expr .probe []))))
+          (.textTag [3] ['z']))
+
 end MakoModel.Codegen
